@@ -526,6 +526,24 @@ func (p *referrersProp) run(rc *RunCtx, rp *ReferrersParams, info *RunInfo) *Ver
 	info.StateHash = regStateHash(reg, simRepo)
 	info.CaseHash = simrt.Mix(info.CaseHash, info.StateHash)
 	info.Probes["ops"] += len(recs)
+	// several changes of one subject written by fewer index uploads: they were merged
+	okOps := map[int]int{}
+	for _, r := range recs {
+		if r.err == nil {
+			okOps[rp.Refs[r.op.Ref].Subject]++
+		}
+	}
+	for sIdx, subj := range subjects {
+		puts := 0
+		for _, rq := range reg.Requests() {
+			if rq.Class == "manifest" && rq.Method == "PUT" && rq.Ref == referrersTagOf(subj) && rq.Status == 201 {
+				puts++
+			}
+		}
+		if puts > 0 && okOps[sIdx] > puts {
+			info.Probes["index_updates_merged"]++
+		}
+	}
 	info.Sample = map[string]any{"subjects": rp.Subjects, "refs": len(rp.Refs), "tasks": rp.Tasks, "ops": len(rp.Ops), "faults": rp.Faults, "skip_gc": rp.SkipGC, "dirty_pre": rp.DirtyPre, "requests": len(reg.Requests())}
 	return nil
 }
